@@ -235,6 +235,15 @@ def run(F, rep):
             imp_branch = any(t and c.endswith('->isImport()') for c, t in rc)
             if res and imp_branch:
                 how = 'import step under %s (import cycles are rejected there with a history)' % res[0]
+        if how and 'equivalence' in kinds:
+            # a network of variable equivalences is an undirected graph: the list must be a VISITED set, i.e. only ever extended.  With a path set
+            # (entries removed on the way back) the search still terminates but enumerates every simple path - factorial in a fully connected network
+            conts_ = [p_ for p_ in f.params if 'std::vector<' in p_['t'] and p_['t'].rstrip().endswith('&')]
+            shr = [c_ for c_ in f.walk() if c_.get('k') == 'Call' and c_.get('mc') and c_.get('fn') in ('pop_back', 'erase', 'clear', 'resize') and c_['c'][0].get('k') == 'Ref' and any(c_['c'][0].get('d') == p_['d'] for p_ in conts_)]
+            if shr:
+                rep.fail('C01.R1', key + '|visited-set-shrinks', f.where(shr[0]), '%s removes entries from its visited list (`%s`): the search along variable equivalences then enumerates every simple path of the network (14 fully connected variables: ~10^10 steps), a hang for a small valid model'
+                         % (f.short, render(shr[0])[:40]))
+                continue
         if how:
             rep.ok('C01.R1', key, f.where(call), how)
             continue
@@ -449,5 +458,6 @@ def run(F, rep):
     # ------------------------------------------------------------------ R2: self-recursion makes progress (library-wide)
     import recursion as _rec
     _rec.rule_progress(F, rep, 'C01.R2', lambda g: '/src/' in g.file, 100, 'the library')
+    _rec.rule_stack_discipline(F, rep, 'C01.S1', lambda g: '/src/' in g.file, 15, 'the library')
 
 
